@@ -74,7 +74,6 @@ impl<'a> Headers<'a> {
         let name = name.into();
         let value = value.into();
 
-        // TODO: only trim OWS (SP/HTAB), trim_ascii* is too permissive
         if name.eq_ignore_ascii_case(Self::CONTENT_LENGTH) {
             if let Ok(s) = std::str::from_utf8(&value) {
                 self.content_length = s.trim_ascii().parse().ok();
@@ -83,14 +82,14 @@ impl<'a> Headers<'a> {
         }
 
         if name.eq_ignore_ascii_case(Self::TRANSFER_ENCODING) {
-            for v in value.split(|&b| b == b',').map(|v| v.trim_ascii_start()) {
+            for v in value.split(|&b| b == b',').map(trim_ows) {
                 if v.eq_ignore_ascii_case(b"chunked") {
                     self.chunked = true;
                     break;
                 }
             }
         } else if name.eq_ignore_ascii_case(Self::CONNECTION) {
-            for v in value.split(|&b| b == b',').map(|v| v.trim_ascii_start()) {
+            for v in value.split(|&b| b == b',').map(trim_ows) {
                 if v.eq_ignore_ascii_case(b"close") {
                     self.connection_close = true;
                     break;
@@ -171,11 +170,7 @@ impl<'a> Headers<'a> {
     pub fn get_transfer_encoding(&self) -> Vec<Vec<u8>> {
         let mut out = Vec::new();
         for (_, v) in self.get_all(Self::TRANSFER_ENCODING) {
-            for token in v
-                .as_ref()
-                .split(|&b| b == b',')
-                .map(|t| t.trim_ascii_start())
-            {
+            for token in v.as_ref().split(|&b| b == b',').map(trim_ows) {
                 out.push(token.to_vec());
             }
         }
@@ -200,11 +195,7 @@ impl<'a> Headers<'a> {
     pub fn get_connection_values(&self) -> Vec<Vec<u8>> {
         let mut out = Vec::new();
         for (_, v) in self.get_all(Self::CONNECTION) {
-            for token in v
-                .as_ref()
-                .split(|&b| b == b',')
-                .map(|t| t.trim_ascii_start())
-            {
+            for token in v.as_ref().split(|&b| b == b',').map(trim_ows) {
                 out.push(token.to_vec());
             }
         }
@@ -216,6 +207,17 @@ impl<'a> Headers<'a> {
             .map(|val| val.eq_ignore_ascii_case(b"100-continue"))
             .unwrap_or(false)
     }
+}
+
+/// Strips optional whitespace (SP / HTAB) from both ends of a list member.
+fn trim_ows(mut v: &[u8]) -> &[u8] {
+    while let [b' ' | b'\t', rest @ ..] = v {
+        v = rest;
+    }
+    while let [rest @ .., b' ' | b'\t'] = v {
+        v = rest;
+    }
+    v
 }
 
 impl<'a> IntoIterator for &'a Headers<'a> {
